@@ -86,6 +86,9 @@ fn timeout_count(max_choice: u8) {
     assert!(sends == 1 + r);
     let s = slot(&pdu_loop, 0);
     assert!(s.state == FrameState::None);
+    // a released slot must not keep answering to the index of the request it held (C01: a stale
+    // index in a free slot shadows a later request with the same 8-bit index in a higher slot)
+    assert!(s.first_pdu == FIRST_PDU_EMPTY);
     assert!(pdu_loop.alloc_frame().is_ok());
 }
 
@@ -235,5 +238,53 @@ pub fn c06_drop_in_sending() {
     });
     kani::cover!(competitor && outcome == 0);
     // every handle is gone now: the slot must be allocatable again (not lost for good)
+    assert!(pdu_loop.alloc_frame().is_ok());
+}
+
+
+// The awaiting future is dropped (task cancelled, outer timeout, select) while its slot is in any
+// state it can be in outside the TX/RX windows: the slot is returned at once, with no stale index.
+//@ harness: c03_drop_future_any_state
+//@ property: C03, C06, C01
+//@ tier: quick
+//@ unwind: 8
+//@ functions: ReceiveFrameFut::drop; ReceiveFrameFut::release; CreatedFrame::drop; PduLoop::alloc_frame
+//@ bounds: 1 slot; the future of a queued request is dropped with the slot forged into Sendable, Sent or RxDone (symbolic), polled or not polled before (symbolic); and a CreatedFrame with one pushed datagram is dropped before being marked sendable
+//@ stubs: embassy_time_driver::now -> virtual clock; schedule_wake -> no-op
+//@ outside: drop while TX / RX is inside the buffer (c06_drop_in_sending, c06_rx_window)
+#[kani::proof]
+#[kani::unwind(8)]
+#[kani::stub(embassy_time_driver::now, crate::verif::support::vnow)]
+#[kani::stub(embassy_time_driver::schedule_wake, crate::verif::support::vschedule_wake)]
+pub fn c03_drop_future_any_state() {
+    static STORAGE: PduStorage<1, FRAME> = PduStorage::new();
+    let (_tx, _rx, pdu_loop) = STORAGE.try_split().unwrap();
+    let w = noop_waker();
+    let mut cx = Context::from_waker(&w);
+    set_now(0);
+    pdu_loop.verif_storage_ref().verif_set_cursors(0, kani::any());
+    let mut frame = pdu_loop.alloc_frame().unwrap();
+    let _h = frame.push_pdu(Command::fprd(0x1000, 0x0130).into(), (), Some(2)).unwrap();
+    if kani::any() {
+        // claimed, filled, never marked sendable
+        drop(frame);
+    } else {
+        let mut fut = pin!(Some(frame.mark_sendable(&pdu_loop, pdu_timeout(), kani::any())));
+        if kani::any() {
+            assert!(fut.as_mut().as_pin_mut().unwrap().poll(&mut cx).is_pending());
+        }
+        let pre = slot(&pdu_loop, 0);
+        let st = match kani::any::<u8>() % 3 {
+            0 => FrameState::Sendable,
+            1 => FrameState::Sent,
+            _ => FrameState::RxDone,
+        };
+        forge(&pdu_loop, 0, Slot { state: st, ..pre });
+        kani::cover!(st == FrameState::RxDone);
+        fut.set(None);
+    }
+    let s = slot(&pdu_loop, 0);
+    assert!(s.state == FrameState::None);
+    assert!(s.first_pdu == FIRST_PDU_EMPTY);
     assert!(pdu_loop.alloc_frame().is_ok());
 }
